@@ -129,10 +129,18 @@ def dict_items(I, args, kwargs, node):
     return items
 
 
+def dict_get(I, args, kwargs, node):
+    d, key = args[0], args[1]
+    default = args[2] if len(args) > 2 else None
+    if I.ctx.branch(dict_contains(I, d, key).t):
+        return SV(_dget(d.t, val_term(I, key)), VAL)
+    return default
+
+
 SPEC_NS.setdefault("abs_ops", {})["DictV"] = {"contains": dict_contains, "index": dict_index, "len": dict_len}
 from pyvc.defaults import DEFAULT_POLICIES
 
-DEFAULT_POLICIES["attrs"].update({"DictV.keys": dict_keys, "DictV.items": dict_items, "Node.keys": "List[Node]", "Node.values": "List[Node]", "Node.elts": "List[Node]"})
+DEFAULT_POLICIES["attrs"].update({"DictV.keys": dict_keys, "DictV.items": dict_items, "DictV.get": dict_get, "Node.keys": "List[Node]", "Node.values": "List[Node]", "Node.elts": "List[Node]"})
 
 
 def s_dkeys(I, d):
